@@ -282,7 +282,7 @@ def k1_tour_identity(F, r):
         for bi, t in mir.calls(fn):
             if t["callee"] not in ("core::cmp::PartialEq::ne", "core::cmp::PartialEq::eq") or len(t["args"]) != 2:
                 continue
-            ta, tb = c01._toks(fn, t["args"][0]), c01._toks(fn, t["args"][1])
+            ta, tb = c01._toks_deep(fn, t["args"][0]), c01._toks_deep(fn, t["args"][1])
             if "vehicle_id" not in (ta | tb):
                 continue
             hits += 1
